@@ -151,14 +151,8 @@ theorem determineGap_affine (ens : String) (reps : List (Rep α)) (a b : Int) (h
 theorem rLength_affine (a b : Int) (ha : 1 ≤ a) (i : Idl) (g : Int) :
     rLength (i.affine a b) (a * g) = rLength i g := by
   have hpos : 0 < a := by omega
-  cases i with
-  | range s n st =>
-    simp only [Idl.affine, rLength, Py.fdiv]
-    rw [show (n : Int) * (a * st) = a * ((n : Int) * st) by ring, Int.mul_fdiv_mul_of_pos _ _ hpos]
-  | list l =>
-    have h := Idl.last_sub_first_affine a b (.list l)
-    simp only [Idl.affine] at h
-    simp only [Idl.affine, rLength, Py.fdiv, h, Int.mul_fdiv_mul_of_pos _ _ hpos]
+  have h := Idl.last_sub_first_affine a b i
+  simp only [rLength, Py.fdiv, h, Int.mul_fdiv_mul_of_pos _ _ hpos]
 
 omit [Scalar α] in
 theorem scatter_congr (l : List Int) (f : Int → Int) (k k' : Int → Nat)
